@@ -499,6 +499,7 @@ def run(fx, tier):
     iterator_outlives_move_rule(fx, v, 'C19')
     authenticator_present_rule(fx, v, 'C19')
     first_byte_table_rule(fx, v, 'C19')
+    handshake_first_byte_rule(fx, v, 'C19')
     from c04 import reconnect_discards_buffer_rule
     v.rule('R-DOM', 'bytes buffered from a lost connection are discarded before the next read; exact-count reads of the handshake are not replaced by raw partial reads')
     reconnect_discards_buffer_rule(fx, v, 'C19')
@@ -970,3 +971,75 @@ def first_byte_table_rule(fx, v, prop='C19'):
                 key=prop + ':R-TABLE:assemble_op:first-byte', where=f_d.file)
     if n == 0 and not v.violations:
         raise AnalysisBroken('assemble_op::operator()(on_read)/dispatch not found')
+
+
+def _first_char_of(x, member):
+    """is x a read of the first character of the string behind `member`?  (*m)[0], m->at(0), m->front(), *m->begin()/cbegin()/data()"""
+    x = unwrap(x)
+    if not isinstance(x, dict):
+        return False
+    on_member = lambda t: contains(t, lambda m_: m_.get('k') == 'mem' and m_.get('n') == member)
+    if x.get('k') == 'call' and callee_name(x) in ('operator[]', 'at'):
+        args = x.get('args', [])
+        obj, idx = (x.get('obj'), args[:1]) if x.get('obj') is not None else (args[0] if args else None, args[1:2])
+        c0 = idx and isinstance(unwrap(idx[0]), dict) and (unwrap(idx[0]).get('c') == 0 or unwrap(idx[0]).get('v') == 0)
+        return bool(c0) and on_member(obj)
+    if x.get('k') == 'call' and callee_name(x) == 'front':
+        return on_member(x.get('obj') or x.get('args'))
+    return False
+
+
+def handshake_first_byte_rule(fx, v, prop='C19'):
+    """F12: the same finite clause in the handshake phase ("in every client phase").  connect_op frames CONNACK/AUTH itself; its
+    reaction to each of the 256 first bytes is folded from operator()(on_fixed_header): anything but CONNACK/AUTH with reserved
+    flag bits 0 ends the attempt (do_shutdown / an error completion) on every path and no body read is started; CONNACK/AUTH with
+    flags 0 is not rejected for its first byte."""
+    from fold import fold, Unfoldable
+    n = 0
+    for f in fx.functions(cls='connect_op', name='operator()', tag='on_fixed_header'):
+        n += 1
+        v.saw(f)
+        bad = []
+        hits = [0]
+        try:
+            for cb in range(256):
+                sval = cb if cb < 128 else cb - 256          # std::string holds (signed) char
+
+                def cv(x, sval=sval):
+                    if _first_char_of(x, '_buffer_ptr'):
+                        hits[0] += 1
+                        return sval
+                    return None
+                outcomes = set()
+                before = hits[0]
+                for pth in fold(fx, f, {}, effects=('do_shutdown', 'complete', 'async_read'), call_values=cv):
+                    if pth.get('noret'):
+                        continue
+                    ks = []
+                    for nme, c, x, l in pth['effects']:
+                        if nme == 'async_read':
+                            ks.append('read-body')
+                        elif nme == 'do_shutdown':
+                            ks.append('rejected')
+                        elif nme == 'complete':
+                            ks.append('rejected' if _complete_class(x) != 'deliver' else 'success')
+                    outcomes.add('+'.join(ks) if ks else 'nothing')
+                if hits[0] == before:
+                    raise AnalysisBroken('connect_op::on_fixed_header: no read of the first byte of _buffer_ptr was recognised')
+                typ, flags = cb >> 4, cb & 0x0F
+                legal = typ in (2, 15) and flags == 0
+                if 'nothing' in outcomes or 'success' in outcomes:
+                    bad.append('0x%02x: %s' % (cb, sorted(outcomes)))
+                elif not legal and outcomes != {'rejected'}:
+                    bad.append('0x%02x (%s) is not rejected on every path: %s' % (
+                        cb, 'reserved flag bits set' if typ in (2, 15) else 'neither CONNACK nor AUTH', sorted(outcomes)))
+                elif legal and 'read-body' not in outcomes:
+                    bad.append('0x%02x (legal) is rejected for its first byte' % cb)
+        except Unfoldable as ex:
+            raise AnalysisBroken('connect_op first-byte table: %s' % ex)
+        v.check(not bad, 'R-TABLE', 'connect_op::operator()(on_fixed_header)%s first-byte table [%s] (256 rows)' % (f.inst()[:25], f.tu),
+                'only 0x20 (CONNACK) and 0xF0 (AUTH) start a body read; every other first byte ends the attempt on every path'
+                if not bad else '; '.join(bad[:3]) + (' … (%d rows)' % len(bad) if len(bad) > 3 else ''),
+                key=prop + ':R-TABLE:connect_op:first-byte', where=f.file)
+    if n == 0 and not v.violations:
+        raise AnalysisBroken('connect_op::operator()(on_fixed_header) not found')
